@@ -35,6 +35,7 @@ def Rule.eval2 (rl : Rule) (s : St2) (n : Nbhd2 Int) (c : Nat × Nat) (t : Nat) 
     let h := polyHash a b vals % (k : Int) + off
     (if s2 = 0 then (if h ≥ 0 then h else h + 1) else h + s2, s')
   | .pulse k t0 off => (if t = t0 then (centre2 n + 1) % (k : Int) + off else centre2 n, s')
+  | .shiftc k off => (((((2 ^ c.1 + 2 ^ c.2) % 1000003 : Nat) : Int) + centre2 n) % (k : Int) + off, s')
 
 def Rule.toRule2 (rl : Rule) : Rule2 St2 Int := fun s n c t => rl.eval2 s n c t
 
